@@ -454,16 +454,29 @@ fn block_len_offsets(bytes: &[u8]) -> Vec<usize> {
     out
 }
 
-pub fn mutations(tier: Tier, deadline: Instant) -> (Tally, Vec<Viol>, bool, usize) {
-    let corpus = corpus(tier);
+/// Breadcrumb: the mutant being processed, so that the parent process can name it if this process
+/// is killed by an allocation failure or any other abort (which `catch_unwind` cannot turn into a
+/// verdict).
+fn breadcrumb_path() -> std::path::PathBuf {
+    let d = crate::report::verif_dir().join("replays");
+    let _ = std::fs::create_dir_all(&d);
+    d.join(format!(".hostile-child-{}.txt", std::process::id()))
+}
+
+pub fn mutations(tier: Tier, range: std::ops::Range<usize>, breadcrumbs: bool, deadline: Instant) -> (Tally, Vec<Viol>, bool, usize) {
+    let corpus: Vec<(String, Vec<u8>)> = corpus(tier).into_iter().enumerate().filter(|(i, _)| range.contains(i)).map(|(_, c)| c).collect();
     let n = corpus.len();
     let capped = std::sync::atomic::AtomicBool::new(false);
+    let crumb = breadcrumb_path();
     let results: Vec<(Tally, Vec<Viol>)> = corpus
-        .par_iter()
+        .iter()
         .map(|(name, bytes)| {
             let mut t = Tally::default();
             let mut v: Vec<Viol> = vec![];
             let try_one = |mutated: Vec<u8>, how: String, t: &mut Tally, v: &mut Vec<Viol>| {
+                if breadcrumbs {
+                    let _ = std::fs::write(&crumb, format!("{name}\n{how}\n{}\n", hex(&mutated)));
+                }
                 for base in [2usize, 5] {
                     t.inc("mutants");
                     if let Some((what, sig)) = deliver_all(base, std::slice::from_ref(&mutated), t) {
@@ -523,6 +536,87 @@ pub fn mutations(tier: Tier, deadline: Instant) -> (Tally, Vec<Viol>, bool, usiz
         viols.extend(v);
     }
     (tally, viols, capped.load(std::sync::atomic::Ordering::Relaxed), n)
+}
+
+const CHILDREN: usize = 8;
+
+/// Entry point of a child process: `ccmc hostile-child <quick|thorough> <start> <end> <secs>`.
+pub fn child_main(tier: Tier, start: usize, end: usize, secs: u64) {
+    let (t, v, capped, n) = mutations(tier, start..end, true, Instant::now() + Duration::from_secs(secs));
+    let out = json!({
+        "tally": t.to_json(), "capped": capped, "n": n,
+        "viols": v.iter().map(|x| json!({"what": x.what, "sig": x.sig, "replay": x.replay})).collect::<Vec<_>>(),
+    });
+    let _ = std::fs::remove_file(breadcrumb_path());
+    println!("{out}");
+}
+
+fn mutations_in_children(tier: Tier, secs: u64) -> (Tally, Vec<Viol>, bool, usize) {
+    let total = corpus(tier).len();
+    let exe = std::env::current_exe().expect("current exe");
+    let per = total.div_ceil(CHILDREN);
+    let mut handles = vec![];
+    for c in 0..CHILDREN {
+        let (start, end) = (c * per, ((c + 1) * per).min(total));
+        if start >= end {
+            continue;
+        }
+        let exe = exe.clone();
+        let tier_s = tier.name().to_string();
+        handles.push(std::thread::spawn(move || {
+            let child = std::process::Command::new(&exe)
+                .args(["hostile-child", &tier_s, &start.to_string(), &end.to_string(), &secs.to_string()])
+                .env("RAYON_NUM_THREADS", "2")
+                .stdout(std::process::Stdio::piped())
+                .stderr(std::process::Stdio::null())
+                .spawn();
+            let Ok(child) = child else { return (None, None, 0u32) };
+            let pid = child.id();
+            let out = child.wait_with_output();
+            match out {
+                Ok(o) if o.status.success() => (Some(String::from_utf8_lossy(&o.stdout).to_string()), None, pid),
+                Ok(o) => (None, Some(format!("{}", o.status)), pid),
+                Err(e) => (None, Some(format!("{e}")), pid),
+            }
+        }));
+    }
+    let mut tally = Tally::default();
+    let mut viols = vec![];
+    let mut capped = false;
+    for h in handles {
+        let (stdout, failure, pid) = h.join().unwrap_or((None, Some("thread panicked".into()), 0));
+        if let Some(s) = stdout {
+            if let Some(v) = s.lines().rev().find_map(|l| serde_json::from_str::<Value>(l).ok()) {
+                if let Some(o) = v["tally"].as_object() {
+                    for (k, n) in o {
+                        // keys are static strings in the child; map the known ones back
+                        for known in ["mutants", "datagrams", "decoded", "rejected_by_decoder"] {
+                            if k == known {
+                                tally.add(known, n.as_u64().unwrap_or(0));
+                            }
+                        }
+                    }
+                }
+                capped |= v["capped"].as_bool().unwrap_or(false);
+                for x in v["viols"].as_array().cloned().unwrap_or_default() {
+                    viols.push(Viol { what: x["what"].as_str().unwrap_or("").to_string(), sig: x["sig"].as_str().unwrap_or("").to_string(), replay: x["replay"].clone() });
+                }
+            }
+        } else if let Some(f) = failure {
+            // the child died: name the datagram it was processing
+            let crumb = crate::report::verif_dir().join("replays").join(format!(".hostile-child-{pid}.txt"));
+            let txt = std::fs::read_to_string(&crumb).unwrap_or_default();
+            let _ = std::fs::remove_file(&crumb);
+            let mut lines = txt.lines();
+            let (name, how, hexs) = (lines.next().unwrap_or("?"), lines.next().unwrap_or("?"), lines.next().unwrap_or(""));
+            viols.push(Viol {
+                what: format!("the process died ({f}) while decoding / processing corpus message `{name}` mutated by `{how}` ({} bytes): an abort (e.g. a failed allocation) cannot be caught, the node is gone", hexs.len() / 2),
+                sig: "process-abort".into(),
+                replay: json!({"engine":"hostile","family":"bytes","base":2,"corpus":name,"mutation":how,"hex":[hexs]}),
+            });
+        }
+    }
+    (tally, viols, capped, total)
 }
 
 fn push(part: &mut Part, viols: Vec<Viol>) {
@@ -592,9 +686,11 @@ pub fn run(tier: Tier, started: Instant) -> Vec<Part> {
 
     let mut m = Part::new("hostile/byte-mutations");
     m.rule = "for each message of a corpus of valid datagrams (BadCluster, SYNs, ACK and SYN-ACK with header-only / key-values of every status / reset / SetMaxVersion / three members / spoofed receiver id, each under three block layouts, compressible and high-entropy bodies, several blocks, two real emissions): every truncation length, every single-byte replacement by {0x00, 0xFF, b^1, b^0x80} at every offset, every block-length field -1/+1/0/65535, trailing garbage; each mutant delivered to two base states; same oracle; non-trivial = mutants accepted by the decoder".into();
-    let (t, v, capped, n) = mutations(tier, secs(tier.pick(58, 3500)));
+    // The sweep runs in child processes: a datagram that makes the decoder allocate absurdly aborts the
+    // process (no unwinding), which must become a verdict, not a crash of the checker.
+    let (t, v, capped, n) = mutations_in_children(tier, tier.pick(58, 3500));
     m.tally.merge(&t);
-    m.bounds = json!({"corpus_messages": n});
+    m.bounds = json!({"corpus_messages": n, "child_processes": CHILDREN});
     push(&mut m, v);
     m.states = m.tally.get("mutants");
     m.transitions = m.tally.get("datagrams");
